@@ -17,7 +17,9 @@ from bv.refs import ssmwire
 from bv.stacks import app as A
 from bv.stacks.appsys import _device, side
 
-INJ_TYPES = ("SimpleAck", "ComplexAck", "Error", "Reject", "Abort", "SegmentAck")
+# "Abort.client" / "SegmentAck.client": the same PDU with the server bit clear, i.e. sent by the peer in its *client* role:
+# it speaks about a transaction in which we are the server and never about one of our own requests, whatever its invoke ID
+INJ_TYPES = ("SimpleAck", "ComplexAck", "Error", "Reject", "Abort", "SegmentAck", "Abort.client", "SegmentAck.client")
 UNKNOWN_MAC = 9
 
 
@@ -37,6 +39,10 @@ def craft(kind, invoke, service=18):
         apdu = bytes([0x71, invoke, 0x00])          # server = 1
     elif kind == "SegmentAck":
         apdu = bytes([0x41, invoke, 0x00, 0x01])    # server = 1, seq 0, window 1
+    elif kind == "Abort.client":
+        apdu = bytes([0x70, invoke, 0x00])          # server = 0
+    elif kind == "SegmentAck.client":
+        apdu = bytes([0x40, invoke, 0x00, 0x01])    # server = 0
     else:
         raise ValueError(kind)
     return bytes([0x01, 0x00]) + apdu
@@ -170,6 +176,21 @@ class MultiSystem(object):
                 for inv in cand:
                     for kind in self.cfg.inj_types:
                         out.append("inject:%d:%d:%s:%d" % (ci, src, kind, inv))
+        # toward a server that is holding a request: server-role frames from the very client it is serving (they speak
+        # about transactions in which that client serves) and client-role frames with the same invoke ID from other
+        # stations (equal IDs from different peers are independent).  None of them concerns the held transaction.
+        for mac in self.cfg.servers:
+            for h in self.servers[mac].held[:2]:
+                hsrc, hinv = int(str(h.pduSource)), h.apduInvokeID
+                for kind in ("Abort", "SegmentAck", "SimpleAck", "Reject"):
+                    out.append("inject:S%d:%d:%s:%d" % (mac, hsrc, kind, hinv))
+                # (a station whose own request with that ID is under way here would rightfully abort *that* one)
+                held_keys = set((int(str(x.pduSource)), x.apduInvokeID) for x in self.servers[mac].held)
+                others = [c["mac"] for ci, c in enumerate(self.cfg.clients)
+                          if c["mac"] != hsrc and (mac, hinv) not in self.live[ci] and (c["mac"], hinv) not in held_keys] + [UNKNOWN_MAC]
+                for o in others[:2]:
+                    for kind in ("Abort.client", "SegmentAck.client"):
+                        out.append("inject:S%d:%d:%s:%d" % (mac, o, kind, hinv))
         return out
 
     # ------------------------------------------------------------------ apply
@@ -198,9 +219,12 @@ class MultiSystem(object):
                 self.errors.append("answer:%s:%s" % (type(err).__name__, err))
         elif label.startswith("inject:"):
             _, ci, src, kind, inv = label.split(":")
-            ci, src, inv = int(ci), int(src), int(inv)
+            src, inv = int(src), int(inv)
             self.inj_left -= 1
-            self._inject(ci, src, kind, inv)
+            if ci.startswith("S"):
+                self._inject_server(int(ci[1:]), src, kind, inv)
+            else:
+                self._inject(int(ci), src, kind, inv)
         elif label == "timer":
             if self.timers_left > 0:
                 self.timers_left -= 1
@@ -244,7 +268,7 @@ class MultiSystem(object):
         """Deliver a crafted frame to client ci right now and judge its effect against the reference."""
         app = self.clients[ci]
         key = (src, inv)
-        should_match = key in self.live[ci]
+        should_match = key in self.live[ci] and not kind.endswith(".client")
         before = self._client_canon(ci)
         nconf = len(app.confirmations)
         pdu = PDU(craft(kind, inv), source=Address(src), destination=app.address)
@@ -271,9 +295,35 @@ class MultiSystem(object):
                 if new:
                     self.problems.append(("segment-ack-produced-confirmation", {"request": k_live}))
 
+    def _server_canon(self, mac):
+        app = self.servers[mac]
+        now = vclock.clock.now
+        return h64((canon(app.smap.clientTransactions, now), canon(app.smap.serverTransactions, now), len(app.indications),
+                    tuple((str(h.pduSource), h.apduInvokeID) for h in app.held), len(app.confirmations),
+                    tuple(str(f.key()) for f in self.wire.inflight)))
+
+    def _inject_server(self, mac, src, kind, inv):
+        """A crafted frame that does not concern any transaction the server is serving: nothing may change."""
+        app = self.servers[mac]
+        before = self._server_canon(mac)
+        pdu = PDU(craft(kind, inv), source=Address(src), destination=app.address)
+        self.injected.append((src, mac, kind, inv))
+        try:
+            Network.process_pdu(self.net, pdu)
+        except Exception as err:
+            self.wire.errors.append("%s: %s" % (type(err).__name__, str(err)[:120]))
+        vclock.settle()
+        self._prune_held()
+        if self._server_canon(mac) != before:
+            self.problems.append(("foreign-frame-changed-server-state:%s" % kind,
+                                  {"server": mac, "from": src, "invoke": inv,
+                                   "held": [(str(h.pduSource), h.apduInvokeID) for h in app.held]}))
+
     def injection_should_match(self, label):
         _, ci, src, kind, inv = label.split(":")
-        return (int(src), int(inv)) in self.live[int(ci)]
+        if ci.startswith("S"):
+            return False
+        return (int(src), int(inv)) in self.live[int(ci)] and not kind.endswith(".client")
 
     def batch_noop_injections(self, labels):
         """Deliver every crafted frame of `labels` (none of which matches a live transaction by the reference) to
@@ -283,7 +333,10 @@ class MultiSystem(object):
         for lab in labels:
             _, ci, src, kind, inv = lab.split(":")
             n = len(self.problems)
-            self._inject(int(ci), int(src), kind, int(inv))
+            if ci.startswith("S"):
+                self._inject_server(int(ci[1:]), int(src), kind, int(inv))
+            else:
+                self._inject(int(ci), int(src), kind, int(inv))
             self._inj_pending = None
             done.append(lab)
             if len(self.problems) > n:
